@@ -164,120 +164,116 @@ Lemma In_q_touch c (q q' : list (Z * CtxId)) (qh qh' : amap CtxId Z) :
   forall h c', c' <> c -> (In (h, c') q' <-> In (h, c') q).
 Proof. intros Q Q' Hg h c' Hn. rewrite (Q' h c'), (Q h c'), Hg by assumption. tauto. Qed.
 
-Section ExpireOne.
-  Variables (cfg : Params) (s : State) (c : CtxId).
-  Hypothesis Hcfg : wf_cfg cfg.
-  Hypothesis HI : Inv cfg s.
-  Hypothesis Hdue : In (height s, c) (expq s).
-  Hypothesis Hb : height s < HEIGHT_BOUND.
+Lemma height_expire_one cfg s c (Hcfg : wf_cfg cfg) (HI : Inv cfg s) (Hdue : In (height s, c) (expq s))
+  (Hb : height s < HEIGHT_BOUND) : height (expire_one cfg s c) = height s.
+Proof.
+  destruct (expire_one_spec cfg s c Hcfg HI Hdue Hb) as (rc & rc1 & _ & _ & _ & _ & Ht & _).
+  apply (t_height _ _ _ Ht).
+Qed.
 
-  Lemma height_expire_one : height (expire_one cfg s c) = height s.
-  Proof.
-    destruct (expire_one_spec cfg s c Hcfg HI Hdue Hb) as (rc & rc1 & _ & _ & _ & _ & Ht & _).
-    apply (t_height _ _ _ Ht).
-  Qed.
+Lemma time_expire_one cfg s c (Hcfg : wf_cfg cfg) (HI : Inv cfg s) (Hdue : In (height s, c) (expq s))
+  (Hb : height s < HEIGHT_BOUND) : time (expire_one cfg s c) = time s.
+Proof.
+  destruct (expire_one_spec cfg s c Hcfg HI Hdue Hb) as (rc & rc1 & _ & _ & _ & _ & Ht & _).
+  apply (t_time _ _ _ Ht).
+Qed.
 
-  Lemma time_expire_one : time (expire_one cfg s c) = time s.
-  Proof.
-    destruct (expire_one_spec cfg s c Hcfg HI Hdue Hb) as (rc & rc1 & _ & _ & _ & _ & Ht & _).
-    apply (t_time _ _ _ Ht).
-  Qed.
+Lemma expq_after_expire_one cfg s c (Hcfg : wf_cfg cfg) (HI : Inv cfg s) (Hdue : In (height s, c) (expq s))
+  (Hb : height s < HEIGHT_BOUND) : forall h c',
+  In (h, c') (expq (expire_one cfg s c)) <-> (In (h, c') (expq s) /\ c' <> c).
+Proof.
+  intros h c'.
+  destruct (expire_one_spec cfg s c Hcfg HI Hdue Hb)
+    as (rc & rc1 & Erc & Ee & En & Hrc1 & Ht & Q1 & Q2 & Ee' & Hcase).
+  destruct (Inv_qpairs _ _ HI) as (Q1s & Q2s).
+  destruct (eqb_spec c' c) as [->|Hn].
+  - rewrite (Q1 h c), Ee'. split; [discriminate|tauto].
+  - rewrite (In_q_touch c _ _ _ _ Q1s Q1 (t_expq_h _ _ _ Ht) h c' Hn). tauto.
+Qed.
 
-  Lemma expq_after_expire_one : forall h c',
-    In (h, c') (expq (expire_one cfg s c)) <-> (In (h, c') (expq s) /\ c' <> c).
-  Proof.
-    intros h c'.
-    destruct (expire_one_spec cfg s c Hcfg HI Hdue Hb)
-      as (rc & rc1 & Erc & Ee & En & Hrc1 & Ht & Q1 & Q2 & Ee' & Hcase).
-    destruct (Inv_qpairs _ _ HI) as (Q1s & Q2s).
-    destruct (eqb_spec c' c) as [->|Hn].
-    - rewrite (Q1 h c), Ee'. split; [discriminate|tauto].
-    - rewrite (In_q_touch c _ _ _ _ Q1s Q1 (t_expq_h _ _ _ Ht) h c' Hn). tauto.
-  Qed.
+Lemma newq_after_expire_one cfg s c (Hcfg : wf_cfg cfg) (HI : Inv cfg s) (Hdue : In (height s, c) (expq s))
+  (Hb : height s < HEIGHT_BOUND) : forall h c',
+  In (h, c') (newq (expire_one cfg s c)) -> In (h, c') (newq s) \/ (c' = c /\ height s <= h).
+Proof.
+  intros h c' Hin.
+  destruct (expire_one_spec cfg s c Hcfg HI Hdue Hb)
+    as (rc & rc1 & Erc & Ee & En & Hrc1 & Ht & Q1 & Q2 & Ee' & Hcase).
+  destruct (Inv_qpairs _ _ HI) as (Q1s & Q2s).
+  destruct (I_ctx_get _ _ _ _ (inv_ctx _ _ HI) Erc) as (Hok & _). unfold ctx_ok in Hok.
+  destruct (eqb_spec c' c) as [->|Hn].
+  - right. split; [reflexivity|]. apply Q2 in Hin.
+    destruct Hcase as [(Ex & En' & _)|[(Ex & En' & Hr & Hm)|(Ex & En' & Hp)]];
+      rewrite En' in Hin; try discriminate.
+    injection Hin as <-. apply more_rep in Hm.
+    assert (c_timeout rc <= c_freq rc) by (apply Hok; exact Hm). lia.
+  - left. now apply (In_q_touch c _ _ _ _ Q2s Q2 (t_newq_h _ _ _ Ht) h c' Hn).
+Qed.
 
-  Lemma newq_after_expire_one : forall h c',
-    In (h, c') (newq (expire_one cfg s c)) -> In (h, c') (newq s) \/ (c' = c /\ height s <= h).
-  Proof.
-    intros h c' Hin.
-    destruct (expire_one_spec cfg s c Hcfg HI Hdue Hb)
-      as (rc & rc1 & Erc & Ee & En & Hrc1 & Ht & Q1 & Q2 & Ee' & Hcase).
-    destruct (Inv_qpairs _ _ HI) as (Q1s & Q2s).
-    destruct (I_ctx_get _ _ _ _ (inv_ctx _ _ HI) Erc) as (Hok & _). unfold ctx_ok in Hok.
-    destruct (eqb_spec c' c) as [->|Hn].
-    - right. split; [reflexivity|]. apply Q2 in Hin.
-      destruct Hcase as [(Ex & En' & _)|[(Ex & En' & Hr & Hm)|(Ex & En' & Hp)]];
-        rewrite En' in Hin; try discriminate.
-      injection Hin as <-. apply more_rep in Hm.
-      assert (c_timeout rc <= c_freq rc) by (apply Hok; exact Hm). lia.
-    - left. now apply (In_q_touch c _ _ _ _ Q2s Q2 (t_newq_h _ _ _ Ht) h c' Hn).
-  Qed.
+Lemma newq_kept_expire_one cfg s c (Hcfg : wf_cfg cfg) (HI : Inv cfg s) (Hdue : In (height s, c) (expq s))
+  (Hb : height s < HEIGHT_BOUND) : forall h c',
+  In (h, c') (newq s) -> In (h, c') (newq (expire_one cfg s c)).
+Proof.
+  intros h c' Hin.
+  destruct (expire_one_spec cfg s c Hcfg HI Hdue Hb)
+    as (rc & rc1 & Erc & Ee & En & Hrc1 & Ht & Q1 & Q2 & Ee' & Hcase).
+  destruct (Inv_qpairs _ _ HI) as (Q1s & Q2s).
+  destruct (eqb_spec c' c) as [->|Hn].
+  - apply Q2s in Hin. congruence.
+  - now apply (In_q_touch c _ _ _ _ Q2s Q2 (t_newq_h _ _ _ Ht) h c' Hn).
+Qed.
 
-  Lemma newq_kept_expire_one : forall h c',
-    In (h, c') (newq s) -> In (h, c') (newq (expire_one cfg s c)).
-  Proof.
-    intros h c' Hin.
-    destruct (expire_one_spec cfg s c Hcfg HI Hdue Hb)
-      as (rc & rc1 & Erc & Ee & En & Hrc1 & Ht & Q1 & Q2 & Ee' & Hcase).
-    destruct (Inv_qpairs _ _ HI) as (Q1s & Q2s).
-    destruct (eqb_spec c' c) as [->|Hn].
-    - apply Q2s in Hin. congruence.
-    - now apply (In_q_touch c _ _ _ _ Q2s Q2 (t_newq_h _ _ _ Ht) h c' Hn).
-  Qed.
-End ExpireOne.
 
-Section NewOne.
-  Variables (cfg : Params) (s : State) (c : CtxId).
-  Hypothesis Hcfg : wf_cfg cfg.
-  Hypothesis HI : Inv cfg s.
-  Hypothesis Hdue : In (height s, c) (newq s).
-  Hypothesis Hb : height s < HEIGHT_BOUND.
+Lemma height_new_one cfg s c (Hcfg : wf_cfg cfg) (HI : Inv cfg s) (Hdue : In (height s, c) (newq s))
+  (Hb : height s < HEIGHT_BOUND) : height (new_one cfg s c) = height s.
+Proof.
+  destruct (new_one_spec cfg s c HI Hdue) as (rc & _ & _ & _ & Ht & _).
+  apply (t_height _ _ _ Ht).
+Qed.
 
-  Lemma height_new_one : height (new_one cfg s c) = height s.
-  Proof.
-    destruct (new_one_spec cfg s c HI Hdue) as (rc & _ & _ & _ & Ht & _).
-    apply (t_height _ _ _ Ht).
-  Qed.
+Lemma time_new_one cfg s c (Hcfg : wf_cfg cfg) (HI : Inv cfg s) (Hdue : In (height s, c) (newq s))
+  (Hb : height s < HEIGHT_BOUND) : time (new_one cfg s c) = time s.
+Proof.
+  destruct (new_one_spec cfg s c HI Hdue) as (rc & _ & _ & _ & Ht & _).
+  apply (t_time _ _ _ Ht).
+Qed.
 
-  Lemma time_new_one : time (new_one cfg s c) = time s.
-  Proof.
-    destruct (new_one_spec cfg s c HI Hdue) as (rc & _ & _ & _ & Ht & _).
-    apply (t_time _ _ _ Ht).
-  Qed.
+Lemma newq_after_new_one cfg s c (Hcfg : wf_cfg cfg) (HI : Inv cfg s) (Hdue : In (height s, c) (newq s))
+  (Hb : height s < HEIGHT_BOUND) : forall h c',
+  In (h, c') (newq (new_one cfg s c)) <-> (In (h, c') (newq s) /\ c' <> c).
+Proof.
+  intros h c'.
+  destruct (new_one_spec cfg s c HI Hdue) as (rc & Erc & En & Ee & Ht & Q1 & Q2 & En' & Hcase).
+  destruct (Inv_qpairs _ _ HI) as (Q1s & Q2s).
+  destruct (eqb_spec c' c) as [->|Hn].
+  - rewrite (Q2 h c), En'. split; [discriminate|tauto].
+  - rewrite (In_q_touch c _ _ _ _ Q2s Q2 (t_newq_h _ _ _ Ht) h c' Hn). tauto.
+Qed.
 
-  Lemma newq_after_new_one : forall h c',
-    In (h, c') (newq (new_one cfg s c)) <-> (In (h, c') (newq s) /\ c' <> c).
-  Proof.
-    intros h c'.
-    destruct (new_one_spec cfg s c HI Hdue) as (rc & Erc & En & Ee & Ht & Q1 & Q2 & En' & Hcase).
-    destruct (Inv_qpairs _ _ HI) as (Q1s & Q2s).
-    destruct (eqb_spec c' c) as [->|Hn].
-    - rewrite (Q2 h c), En'. split; [discriminate|tauto].
-    - rewrite (In_q_touch c _ _ _ _ Q2s Q2 (t_newq_h _ _ _ Ht) h c' Hn). tauto.
-  Qed.
+Lemma expq_after_new_one cfg s c (Hcfg : wf_cfg cfg) (HI : Inv cfg s) (Hdue : In (height s, c) (newq s))
+  (Hb : height s < HEIGHT_BOUND) : forall h c',
+  In (h, c') (expq (new_one cfg s c)) -> In (h, c') (expq s) \/ (c' = c /\ height s < h).
+Proof.
+  intros h c' Hin.
+  destruct (new_one_spec cfg s c HI Hdue) as (rc & Erc & En & Ee & Ht & Q1 & Q2 & En' & Hcase).
+  destruct (Inv_qpairs _ _ HI) as (Q1s & Q2s).
+  destruct (I_ctx_get _ _ _ _ (inv_ctx _ _ HI) Erc) as (Hok & _). unfold ctx_ok in Hok.
+  destruct (eqb_spec c' c) as [->|Hn].
+  - right. split; [reflexivity|]. apply Q1 in Hin.
+    destruct Hcase as [(_ & Ex & Ee')|[(_ & Hr & Ee' & n & Ex)|[(_ & Hr & Ee' & Ex)|(Hr & Ee' & Ex)]]];
+      rewrite Ee' in Hin; try discriminate.
+    injection Hin as <-. lia.
+  - left. now apply (In_q_touch c _ _ _ _ Q1s Q1 (t_expq_h _ _ _ Ht) h c' Hn).
+Qed.
 
-  Lemma expq_after_new_one : forall h c',
-    In (h, c') (expq (new_one cfg s c)) -> In (h, c') (expq s) \/ (c' = c /\ height s < h).
-  Proof.
-    intros h c' Hin.
-    destruct (new_one_spec cfg s c HI Hdue) as (rc & Erc & En & Ee & Ht & Q1 & Q2 & En' & Hcase).
-    destruct (Inv_qpairs _ _ HI) as (Q1s & Q2s).
-    destruct (I_ctx_get _ _ _ _ (inv_ctx _ _ HI) Erc) as (Hok & _). unfold ctx_ok in Hok.
-    destruct (eqb_spec c' c) as [->|Hn].
-    - right. split; [reflexivity|]. apply Q1 in Hin.
-      destruct Hcase as [(_ & Ex & Ee')|[(_ & Hr & Ee' & n & Ex)|[(_ & Hr & Ee' & Ex)|(Hr & Ee' & Ex)]]];
-        rewrite Ee' in Hin; try discriminate.
-      injection Hin as <-. lia.
-    - left. now apply (In_q_touch c _ _ _ _ Q1s Q1 (t_expq_h _ _ _ Ht) h c' Hn).
-  Qed.
+Lemma expq_kept_new_one cfg s c (Hcfg : wf_cfg cfg) (HI : Inv cfg s) (Hdue : In (height s, c) (newq s))
+  (Hb : height s < HEIGHT_BOUND) : forall h c',
+  In (h, c') (expq s) -> In (h, c') (expq (new_one cfg s c)).
+Proof.
+  intros h c' Hin.
+  destruct (new_one_spec cfg s c HI Hdue) as (rc & Erc & En & Ee & Ht & Q1 & Q2 & En' & Hcase).
+  destruct (Inv_qpairs _ _ HI) as (Q1s & Q2s).
+  destruct (eqb_spec c' c) as [->|Hn].
+  - apply Q1s in Hin. congruence.
+  - now apply (In_q_touch c _ _ _ _ Q1s Q1 (t_expq_h _ _ _ Ht) h c' Hn).
+Qed.
 
-  Lemma expq_kept_new_one : forall h c',
-    In (h, c') (expq s) -> In (h, c') (expq (new_one cfg s c)).
-  Proof.
-    intros h c' Hin.
-    destruct (new_one_spec cfg s c HI Hdue) as (rc & Erc & En & Ee & Ht & Q1 & Q2 & En' & Hcase).
-    destruct (Inv_qpairs _ _ HI) as (Q1s & Q2s).
-    destruct (eqb_spec c' c) as [->|Hn].
-    - apply Q1s in Hin. congruence.
-    - now apply (In_q_touch c _ _ _ _ Q1s Q1 (t_expq_h _ _ _ Ht) h c' Hn).
-  Qed.
-End NewOne.
